@@ -500,6 +500,7 @@ def run(chk):
     _ringorder_rule(chk, prog)
     _coercefirst_rule(chk, prog)
     _ringwalk_rule(chk, prog)
+    _ringbound_rule(chk, prog)
     _runq_rule(chk, prog)
     _tailwriters_rule(chk, prog)
     _pendingmark_rule(chk, prog)
@@ -651,6 +652,58 @@ def _ringwalk_rule(chk, prog):
                 chk.instance(rule)
                 chk.ok(rule, "%s: %s (unreachable site)" % (fn.name, what))
     chk.floor(rule, 3, n)
+
+
+def _ringbound_rule(chk, prog):
+    """The slots of a JanetQueue are 0 .. capacity-1 and every one of them can hold an item (the queue grows before
+    tail catches up with head, so the free slot is wherever tail stands, not the last one).  A walk over the ring
+    therefore runs up to `capacity` itself and an index wraps to 0 exactly when it reaches `capacity`: a bound of
+    `capacity - 1` (or `+ 1`) skips the last slot or reads one past it."""
+    rule = "C06-RINGBOUND"
+    chk.rule(rule, "in ev.c a walk bound or wrap-to-zero test over a ring queue compares the index with the queue's capacity itself, not with capacity plus or minus something")
+    n = 0
+
+    def caps(e):
+        return [y for y in e.walk() if y.k == "mem" and y.field == "capacity" and y.rec == "JanetQueue"]
+
+    def assigns_zero(body):
+        for y in body.walk():
+            if y.k == "asg" and y.op == "=" and strip_casts(y.kids[1]).v == 0 and strip_casts(y.kids[1]).k in ("int", "lit", "num"):
+                return True
+        return False
+    for fn in sorted(prog.tus["ev.c"].funcs.values(), key=lambda f: f.name):
+        sites = []
+        for x in fn.nodes:
+            cond = None
+            if x.k == "for" and x.kids[1] is not None:
+                cond, ctx = strip_casts(x.kids[1]), "walk bound"
+            elif x.k == "cond" and len(x.kids) == 3 and (strip_casts(x.kids[2]).v == 0 or strip_casts(x.kids[1]).v == 0):
+                cond, ctx = strip_casts(x.kids[0]), "wrap test"
+            elif x.k == "if" and len(x.kids) >= 2 and x.kids[1] is not None and assigns_zero(x.kids[1]) and len(list(x.kids[1].walk())) <= 8:
+                cond, ctx = strip_casts(x.kids[0]), "wrap test"
+            if cond is None:
+                continue
+            while cond.k == "paren" and cond.kids:
+                cond = strip_casts(cond.kids[0])
+            if cond.k != "bin" or cond.op not in ("<", "<=", ">", ">=", "==", "!="):
+                continue
+            for side in cond.kids:
+                if caps(side):
+                    sites.append((cond, strip_casts(side), ctx))
+        for cond, side, ctx in sites:
+            n += 1
+            chk.instance(rule)
+            chk.analysed(fn)
+            while side.k == "paren" and side.kids:
+                side = strip_casts(side.kids[0])
+            if side.k == "mem" and side.field == "capacity" and cond.op in ("<", ">=", "==", "!="):
+                chk.ok(rule, "%s: %s `%s` compares with the capacity itself" % (fn.name, ctx, cond.text()))
+            else:
+                chk.violation(rule, "ev.c", fn.name, "%s:%s" % (ctx.replace(" ", "-"), cond.text().replace(" ", "")), cond.loc,
+                              "%s `%s` in %s does not compare the ring index with the queue's capacity itself (`<` / `>=` / `==` capacity): the "
+                              "slots are 0 .. capacity-1 and all of them hold items once the ring has wrapped, so this bound skips "
+                              "the last slot or steps past the array" % (ctx, cond.text(), fn.name))
+    chk.floor(rule, 6, n)
 
 
 def _runq_rule(chk, prog):
